@@ -125,30 +125,37 @@ Size(S, t, v) ==
 (* of the byte at offset k is what a decoder is reading when input is cut   *)
 (* at k.                                                                     *)
 Rep(n, x) == [i \in 1..n |-> x]
+\* an n-byte wire element: its first byte carries the start marker "^"
+El(n, x) == IF n = 0 THEN <<>> ELSE <<"^" \o x>> \o Rep(n - 1, x)
+
+Roles == {"scalar", "str.len", "str.body", "arr.count", "map.count", "map.key", "enum",
+          "msg.len", "msg.idx", "msg.term", "union.len", "union.disc"}
+IsStart(x) == \E r \in Roles : x = "^" \o r
+RoleOf(x) == IF IsStart(x) THEN CHOOSE r \in Roles : x = "^" \o r ELSE x
 
 RECURSIVE Lay(_, _, _)
 LayPrim(p, v) ==
-  IF p = "string" THEN Rep(4, "str.len") \o Rep(Len(v), "str.body")
-  ELSE Rep(PrimWidth[p], "scalar")
+  IF p = "string" THEN El(4, "str.len") \o El(Len(v), "str.body")
+  ELSE El(PrimWidth[p], "scalar")
 
 Lay(S, t, v) ==
   CASE t.k = "p" -> LayPrim(t.p, v)
-    [] t.k = "a" -> Rep(4, "arr.count") \o FlattenSeq([i \in 1..Len(v) |-> Lay(S, t.e, v[i])])
-    [] t.k = "m" -> Rep(4, "map.count") \o
+    [] t.k = "a" -> El(4, "arr.count") \o FlattenSeq([i \in 1..Len(v) |-> Lay(S, t.e, v[i])])
+    [] t.k = "m" -> El(4, "map.count") \o
                     FlattenSeq([i \in 1..Len(v) |->
                         (IF t.key = "string" THEN LayPrim(t.key, v[i][1])
-                         ELSE Rep(PrimWidth[t.key], "map.key")) \o Lay(S, t.v, v[i][2])])
+                         ELSE El(PrimWidth[t.key], "map.key")) \o Lay(S, t.v, v[i][2])])
     [] t.k = "r" ->
         LET d == Def(S, t.n) IN
-        CASE d.kind = "enum" -> Rep(PrimWidth[d.base], "enum")
+        CASE d.kind = "enum" -> El(PrimWidth[d.base], "enum")
           [] d.kind = "struct" -> FlattenSeq([i \in 1..Len(d.fields) |-> Lay(S, d.fields[i].t, v[i])])
           [] d.kind = "message" ->
-               Rep(4, "msg.len") \o
+               El(4, "msg.len") \o
                FlattenSeq([i \in 1..Len(v) |->
                     IF MsgField(d, v[i][1]).dep THEN <<>>
-                    ELSE <<"msg.idx">> \o Lay(S, MsgField(d, v[i][1]).t, v[i][2])]) \o <<"msg.term">>
+                    ELSE <<"^msg.idx">> \o Lay(S, MsgField(d, v[i][1]).t, v[i][2])]) \o <<"^msg.term">>
           [] d.kind = "union" ->
-               Rep(4, "union.len") \o <<"union.disc">> \o Lay(S, R(Branch(d, v[1]).n), v[2])
+               El(4, "union.len") \o <<"^union.disc">> \o Lay(S, R(Branch(d, v[1]).n), v[2])
 
 -----------------------------------------------------------------------------
 (* Normal form: the wire format's own normalisations *)
@@ -213,7 +220,7 @@ MinSize(S, t) ==
           [] d.kind = "message" -> 5
           [] d.kind = "union" -> 5
 
-ZeroSizeCap == 4096   \* arrays of zero-size elements: the format gives no bound; the model caps
+ZeroSizeCap == 1024   \* arrays of zero-size elements: the format gives no bound; the model caps
 
 RECURSIVE Dec(_, _, _, _, _)
 RECURSIVE DecElems(_, _, _, _, _, _, _)
